@@ -228,6 +228,10 @@ structure ParamSame (s : Model.SR ℝ) (o : Js.Obj ℝ) : Prop where
   dp : o.datum_params.getD [] = s.datumParams
   ra : o.R_A = s.ra
   south : o.utmSouth = s.utmSouth
+  /-- `K` is written by nothing in the port (`+k` writes `K0`), `k` by nothing in proj4js' handlers -/
+  kk : o.k = s.k
+  /-- `+czech` is no case of the port's switch -/
+  czech : o.czech = s.czech
 
 theorem d2r_eq : (c_deg2rad : ℝ) = Js.D2R := rfl
 
@@ -268,7 +272,7 @@ theorem go_projString_num_eq_js (k fld : String) (deg : Bool) (hk : projString_n
     | exact h.tm
     | exact h.dp
     | exact h.ra
-    | exact h.south
+    | exact h.south | exact h.kk | exact h.czech
     | rfl)
 
 /-- **the string cases** (`self.F = paramVal`: `Gen.Go.projString_str`) = projString.js (`proj: 'projName'`,
@@ -306,7 +310,7 @@ theorem go_projString_str_eq_js (k fld : String) (hk : projString_str k = some f
     | exact h.tm
     | exact h.dp
     | exact h.ra
-    | exact h.south
+    | exact h.south | exact h.kk | exact h.czech
     | rfl)
 
 /-- **the flag cases** (`self.F = true`: `Gen.Go.projString_flag`) = projString.js (`r_a`, `south`; `no_defs` is
@@ -344,7 +348,7 @@ theorem go_projString_flag_eq_js (k fld : String) (hk : projString_flag k = some
     | exact h.tm
     | exact h.dp
     | exact h.ra
-    | exact h.south
+    | exact h.south | exact h.kk | exact h.czech
     | rfl)
 
 /-- **`+units=`** (hand model of the pinned case text) = projString.js: the name is stored; a name of the units
@@ -378,7 +382,7 @@ theorem go_projString_units_eq_js (s : Model.SR ℝ) (o : Js.Obj ℝ) (h : Param
     | exact h.tm
     | exact h.dp
     | exact h.ra
-    | exact h.south
+    | exact h.south | exact h.kk | exact h.czech
     | rfl)
 
 /-- **`+nadgrids=`** = projString.js: `@null` sets the datum code `none`, anything else is stored -/
@@ -412,7 +416,7 @@ theorem go_projString_nadgrids_eq_js (s : Model.SR ℝ) (o : Js.Obj ℝ) (h : Pa
     | exact h.tm
     | exact h.dp
     | exact h.ra
-    | exact h.south
+    | exact h.south | exact h.kk | exact h.czech
     | rfl)
 
 /-- **`+axis=`** = projString.js: three letters of `ewnsud` are stored, anything else is ignored -/
@@ -446,7 +450,7 @@ theorem go_projString_axis_eq_js (s : Model.SR ℝ) (o : Js.Obj ℝ) (h : ParamS
     | exact h.tm
     | exact h.dp
     | exact h.ra
-    | exact h.south
+    | exact h.south | exact h.kk | exact h.czech
     | rfl)
 
 
@@ -513,7 +517,7 @@ theorem go_projString_towgs84_eq_js (s s' : Model.SR ℝ) (o : Js.Obj ℝ) (h : 
     | exact h.tm
     | exact h.dp
     | exact h.ra
-    | exact h.south
+    | exact h.south | exact h.kk | exact h.czech
     | rfl
 
 /-- **`+pm=`** (hand model of the pinned case text) = projString.js: a name of the prime-meridian table gives the
@@ -554,7 +558,7 @@ theorem go_projString_pm_eq_js (s : Model.SR ℝ) (o : Js.Obj ℝ) (h : ParamSam
     | exact h.tm
     | exact h.dp
     | exact h.ra
-    | exact h.south
+    | exact h.south | exact h.kk | exact h.czech
     | rfl
   | some d =>
     have hb : (if RNum.truthy (d.toNum : ℝ) = true then (d.toNum : ℝ) else Js.jsNum (some v)) = d.toNum := by
@@ -589,7 +593,7 @@ theorem go_projString_pm_eq_js (s : Model.SR ℝ) (o : Js.Obj ℝ) (h : ParamSam
     | exact h.tm
     | exact h.dp
     | exact h.ra
-    | exact h.south
+    | exact h.south | exact h.kk | exact h.czech
     | rfl
 
 
